@@ -64,20 +64,23 @@ class SessTarget(object):
     """the target of Session.tla: two one-byte blocks, a capacity, an identity, a reported device type, and
     a completion it can be told to give the next command"""
     SENSE = bytes([0x70, 0, 5, 0, 0, 0, 0, 10, 0, 0, 0, 0, 0x24, 0, 0, 0, 0, 0])
+    SENSE2 = bytes([0x70, 0, 6, 0, 0, 0, 0, 10, 0, 0, 0, 0, 0x29, 0, 0, 0, 0, 0])
+    SENSE3 = bytes([0x72, 4, 0x44, 0x00, 0, 0, 0, 0])
 
     def __init__(self):
         self.ptype, self.cap, self.ident, self.disk, self.fault, self.seen = 0, 1, 1, {0: 0, 1: 0}, 0, 0
+        self.for_b = False        # the command comes from the second facade's device (a media changer)
 
     def __call__(self, cdb, dataout, datain):
         import struct
         self.seen += 1
         if self.fault:
             st, self.fault = self.fault, 0
-            return (2, self.SENSE) if st == 2 else (st, None)
+            return {2: (2, self.SENSE), 3: (2, self.SENSE2), 5: (2, self.SENSE3)}.get(st, (st, None))
         op = cdb[0]
         if op == 0x12:
             d = bytearray(96)
-            d[0], d[2], d[4] = self.ptype, 6, 91
+            d[0], d[2], d[4] = (8 if self.for_b else self.ptype), 6, 91
             d[8:16] = b"VERIFTG%d" % self.ident
             datain[:len(d)] = d[:len(datain)]
         elif op == 0x25:
@@ -130,7 +133,15 @@ def session(chk):
             else:
                 dev = mod("pyscsi.pyscsi.scsi_device").SCSIDevice(path, readwrite=True)
             facade = SCSI(dev, 1)
-            kept, kind = None, ""
+            if b["tr"] == "iscsi":
+                dev_b = mod("pyscsi.pyiscsi.iscsi_device").ISCSIDevice("iscsi://h/iqn.changer/0", "iqn.i")
+            else:
+                dev_b = mod("pyscsi.pyscsi.scsi_device").SCSIDevice(path, readwrite=True)
+            tgt.for_b = True
+            facade_b = SCSI(dev_b, 0)
+            tgt.for_b = False
+            tgt.seen = 0
+            kept, kind, held = None, "", None
             for i, s_ in enumerate(b["steps"]):
                 a = s_["act"]
                 seen0 = tgt.seen
@@ -170,6 +181,19 @@ def session(chk):
                         d1 = int(facade.readcapacity16().result["returned_lba"])
                     elif a == "probeA3":
                         facade.reporttargetportgroups()
+                    elif a == "inspect":
+                        d1 = int(held.data["sense_key"])
+                    elif a.startswith("b_"):
+                        tgt.for_b = True
+                        try:
+                            if a == "b_probe9E":
+                                facade_b.readcapacity16()
+                            elif a == "b_probeA3":
+                                facade_b.reporttargetportgroups()
+                            else:
+                                facade_b(dev_b)
+                        finally:
+                            tgt.for_b = False
                     elif a == "settype":
                         tgt.ptype = s_["x"]
                     elif a == "resize":
@@ -180,6 +204,13 @@ def session(chk):
                         tgt.fault = s_["x"]
                 except BaseException as ex:
                     out = type(ex).__name__
+                    if out == "CheckCondition":
+                        try:
+                            d1 = int(ex.data["sense_key"])
+                        except Exception:
+                            d1 = 99
+                        if held is None:
+                            held = ex
                 sent = tgt.seen - seen0
                 if s_["out"] == "refused" and out != "ok" and sent == 0:
                     out = "refused"
@@ -191,10 +222,11 @@ def session(chk):
                                               "behaviour": b["steps"][:i + 1]},
                                    "what": "Session.tla behaviour replayed"}, dedup=("Session", a, s_["out"], out, sent))
                     break
-            try:
-                dev.close()
-            except Exception:
-                pass
+            for dv in (dev, dev_b):
+                try:
+                    dv.close()
+                except Exception:
+                    pass
             ev.case(("session", str(b)[:400]))
     finally:
         for f in os.listdir(d):
